@@ -9,6 +9,7 @@ mod prims;
 mod refimpl;
 mod util;
 mod vectors;
+mod wraps;
 
 use util::Opts;
 
